@@ -112,7 +112,7 @@ class Pipelines:
     def __init__(self, repo, layouts=None):
         self.repo = repo
         self.L = layouts or Layouts(repo)
-        self.I = Interp(repo)
+        self.I = Interp(repo, strict=False)
         self._results = None
 
     STRUCT_NAMES = ("leader", "volume", "lines:signal", "lines:processed", "header")  # fed by the record layouts
